@@ -734,10 +734,16 @@ J(name="c12.radsToDegs", props=["C12", "C18"], harness="c12.c", entry="h_radsToD
 J(name="c12.gridDiskUnsafe", props=["C12", "C18", "C05"], harness="c12.c", entry="h_gridDiskUnsafe", enforce=["gridDiskUnsafe"],
   replace=["gridDiskDistancesUnsafe/gridDiskDistancesUnsafe_ghost"])
 
+J(name="c12.h3ToFaceIjk.badbc", props=["C12", "C18"], harness="c12.c", entry="h_h3ToFaceIjk", enforce=["_h3ToFaceIjk/_h3ToFaceIjk_badbc"],
+  unwind=17, timeout=900, checks=["--no-standard-checks", "--bounds-check", "--pointer-check"])
+for fres in range(16):
+    J(name="c12.h3ToFaceIjk.hexbc.r%d" % fres, props=["C12", "C18"], harness="c12.c", entry="h_h3ToFaceIjk_res", defs=["FRES=%d" % fres],
+      enforce=["_h3ToFaceIjk/_h3ToFaceIjk_hexbc"], unwind=17, timeout=600, tier="never",
+      checks=["--no-standard-checks", "--bounds-check", "--pointer-check"])
 J(name="c12.h3ToFaceIjk.hexbc.arith", props=["C12"], harness="c12.c", entry="h_h3ToFaceIjk", enforce=["_h3ToFaceIjk/_h3ToFaceIjk_hexbc"],
   unwind=17, timeout=1800, tier="never")   # with the arithmetic-overflow checks on: does not finish in 30 min (15 symbolic digit levels of aperture-7 arithmetic)
 J(name="c12.h3ToFaceIjk.hexbc", props=["C12", "C18"], harness="c12.c", entry="h_h3ToFaceIjk", enforce=["_h3ToFaceIjk/_h3ToFaceIjk_hexbc"],
-  unwind=17, timeout=3000, tier="thorough", checks=["--no-standard-checks", "--bounds-check", "--pointer-check"])
+  unwind=17, timeout=3000, tier="never", checks=["--no-standard-checks", "--bounds-check", "--pointer-check"])   # out of memory (8 GB) after 13 min
 J(name="c12.h3ToFaceIjk.pentbc", props=["C12", "C18"], harness="c12.c", entry="h_h3ToFaceIjk", enforce=["_h3ToFaceIjk/_h3ToFaceIjk_pentbc"],
   unwind=17, timeout=1800, checks=["--no-standard-checks", "--bounds-check", "--pointer-check"], tier="never",  # parked: DFCC reports the callees' own
   # parameters/locals (h, r, i) as not assignable once the secondary-overage loop carries a contract (spurious frame failures, 250 s)
